@@ -1390,4 +1390,84 @@ theorem agree_all {s : Schema} {c : Cfg} (wf : SchemaWF s c) : ∀ f, Agree s c 
       (fun n isMap fields v path cv hs hc' _ h' => obj_eq_spec wf ih hs hc' h')
       sh t v path cv hf hc hn h
 
+/-! ## the shapes the model derives fit their types -/
+
+/-- a type the Spec's embedding covers: its base type is defined, is not `Any`, and a map-backed input is not
+    inside a list (F02c) -/
+def tyOK (s : Schema) : Ty → Bool
+  | .named n _ => (match s.get n with
+      | some (.scalar k) => k != .any
+      | some _ => true
+      | none => false)
+  | .list e _ => tyOK s e && (isMapBase s e).isNone
+
+theorem baseShape_fits (s : Schema) (n : String) (nn : Bool) (h : tyOK s (.named n nn) = true) :
+    fits s (baseShape s n) (.named n nn) = true := by
+  simp only [tyOK] at h
+  unfold baseShape
+  cases hg : s.get n with
+  | none => simp [hg] at h
+  | some td =>
+    cases td with
+    | scalar k => simp [hg] at h; simp [fits, hg, h]
+    | enum vals => simp [fits, hg]
+    | input isMap fields => cases isMap <;> simp [fits, hg]
+
+theorem shapeArg_nilable (s : Schema) (c : Cfg) (t : Ty) (ht : t.nn = false) : (shapeArg s c t).nilable = true := by
+  cases t with
+  | named n nn =>
+    simp [Ty.nn] at ht; subst ht
+    simp only [shapeArg]
+    cases h : (baseShape s n).nilable
+    · simp [h, Sh.nilable]
+    · simp [h]
+  | list e nn => simp [shapeArg, Sh.nilable]
+
+theorem shapeArg_fits (s : Schema) (c : Cfg) : ∀ t, tyOK s t = true → fits s (shapeArg s c t) t = true := by
+  intro t
+  induction t with
+  | named n nn =>
+    intro h
+    simp only [shapeArg]
+    split
+    · simpa [fits] using baseShape_fits s n nn h
+    · exact baseShape_fits s n nn h
+  | list e nn ih =>
+    intro h
+    simp only [tyOK, Bool.and_eq_true] at h
+    have hfe := ih h.1
+    simp only [shapeArg]
+    have hnil : (e.nn || (shapeArg s c e).nilable) = true := by
+      cases hnn : e.nn
+      · simp [shapeArg_nilable s c e hnn]
+      · simp
+    split
+    · simp [fits, hfe, Sh.nilable]
+    · simp [fits, hfe, hnil]
+
+theorem shapeRef_fits (s : Schema) (c : Cfg) (t : Ty) (h : tyOK s t = true) : fits s (shapeRef s c t) t = true := by
+  unfold shapeRef
+  cases hm : isMapBase s t with
+  | none => exact shapeArg_fits s c t h
+  | some n =>
+    cases t with
+    | list e nn =>
+      simp only [tyOK, Bool.and_eq_true] at h
+      simp only [isMapBase] at hm
+      simp [hm] at h
+    | named n' nn =>
+      simp only [isMapBase] at hm
+      split at hm
+      · rename_i fields hg
+        cases hm
+        simp [fits, hg]
+      · cases hm
+
+theorem shapeField_fits (s : Schema) (c : Cfg) (t : Ty) (h : tyOK s t = true) : fits s (shapeField s c t) t = true := by
+  unfold shapeField
+  dsimp only
+  split
+  · simpa [fits] using shapeRef_fits s c t h
+  · exact shapeRef_fits s c t h
+
 end GqlgenVerif.Coerce
